@@ -22,6 +22,7 @@
 #define C06_OUTBIG ((size_t)1 << 20)
 #define C06_EXACT_MAX 4096   // pieces up to this size are copied into exactly sized heap blocks (ASan sees overruns)
 #define C06_HANG 99          // pseudo return code: no termination
+#define C06_SPURIOUS_BUF_ERROR 97  // pseudo return code: LZMA_BUF_ERROR although the previous call had made progress
 #define C06_RUNAWAY 98       // pseudo return code: output grew beyond the limit below (a coder that never stops producing)
 
 // Upper limit for the output of one run. A sweep lowers it to twice the reference run's output + 64 KiB: a sliced run that
@@ -142,6 +143,11 @@ static void c06_slicing_next(c06_slicing *sl, size_t *in_len, size_t *out_cap)
 		case 10: *in_len = C06_ALL; *out_cap = 5; break;
 		case 11: *in_len = C06_ALL; *out_cap = 7; break;
 		case 12: *in_len = C06_ALL; *out_cap = 1 + (i * 7 + 3) % 5; break;   // 1..5 bytes, varying
+		// isolated empty calls far apart, with plenty of progress in between (lzma_code() may answer LZMA_BUF_ERROR only to the
+		// second of two CONSECUTIVE calls without progress)
+		case 13: if (i % 97 == 96) { *in_len = 0; *out_cap = 13; } else { *in_len = 1; *out_cap = 13; } break;   // avail_in == 0
+		case 14: if (i % 53 == 52) { *in_len = 3; *out_cap = 0; } else { *in_len = 3; *out_cap = 5; } break;     // avail_out == 0
+		case 15: if (i % 31 == 30 || i == 2) { *in_len = 0; *out_cap = 0; } else { *in_len = 64; *out_cap = 64; } break;
 		default: *in_len = 1; *out_cap = 1; break;
 		}
 		break;
@@ -289,6 +295,7 @@ static void c06_run_sliced(lzma_stream *strm, const uint8_t *in, size_t in_len, 
 	size_t pos = 0;             // position of next_in inside in[]
 	bool finishing = false;
 	unsigned idle = 0;
+	bool prev_no_progress = false;   // the previous call consumed and produced nothing and returned LZMA_OK or LZMA_BUF_ERROR
 	double idle_since = 0;
 	uint8_t dummy_in = 0, dummy_out = 0;
 	c06_slicing_reset(sl);
@@ -343,6 +350,14 @@ static void c06_run_sliced(lzma_stream *strm, const uint8_t *in, size_t in_len, 
 		free(tmp_in);
 		pos += used_in;
 
+		// lzma_code() turns LZMA_OK into LZMA_BUF_ERROR only for the second of two consecutive calls that made no progress.
+		// An LZMA_BUF_ERROR right after a call that did make progress means the final status an application sees depends on
+		// where it happened to make an empty call earlier: reported as its own pseudo code.
+		if (ret == LZMA_BUF_ERROR && !prev_no_progress) {
+			r->ret = C06_SPURIOUS_BUF_ERROR;
+			break;
+		}
+		prev_no_progress = used_in == 0 && made_out == 0 && (ret == LZMA_OK || ret == LZMA_BUF_ERROR);
 		bool full_call = (ain == left) && out_cap > 0;
 		if (used_in == 0 && made_out == 0) {
 			if (idle++ == 0)
